@@ -70,12 +70,41 @@ def loader_name_term(d):
 
 
 class Clause:
-    def __init__(self, name, args, expr, file, module):
+    def __init__(self, name, args, expr, file, module, opaque=False):
         self.name = name
         self.args = args
         self.expr = expr
         self.file = file
         self.module = module
+        self.opaque = opaque
+
+
+# ---- opaque specification functions -------------------------------------------------------------------------------------
+# A helper decorated with @opaque is not unfolded where it is used: a call becomes an application of an uninterpreted function
+# over its numeric arguments (one function per helper and per value of its non-numeric arguments), and the defining equation
+# `forall numeric args. F(args) == body` is added to the path condition (pattern F(args)).  Conservative extension: F is fresh.
+_PROBE = z3.Int("__opaque_probe")
+_OPAQUE = {}
+
+
+def _fingerprint(v, keep):
+    if isinstance(v, Num):
+        keep.append(v.t)
+        return ("n", v.kind, v.t.get_id())
+    if isinstance(v, FObj):
+        return ("o", v.cls, tuple((k, _fingerprint(x, keep)) for k, x in sorted(v.fields.items())))
+    if isinstance(v, L.RSeq):
+        e = v.elem(_PROBE)
+        et = e.t if isinstance(e, Num) else None
+        if et is None:
+            raise EngineError("opaque helper: sequence of non-numeric elements")
+        keep.extend([v.length, et])
+        return ("s", v.length.get_id(), et.get_id())
+    if isinstance(v, (TupV,)):
+        return ("t", tuple(_fingerprint(x, keep) for x in v.items))
+    if isinstance(v, NoneV):
+        return ("none",)
+    raise EngineError(f"opaque helper: argument of type {type(v).__name__}")
 
 
 class SpecDB:
@@ -112,7 +141,8 @@ class SpecDB:
                     body = [b for b in node.body if not (isinstance(b, ast.Expr) and isinstance(b.value, ast.Constant))]
                     if len(body) != 1 or not isinstance(body[0], ast.Return):
                         raise EngineError(f"{path}:{node.lineno}: clause {node.name} must be a single return")
-                    cl = Clause(node.name, [a.arg for a in node.args.args], body[0].value, path, fn[:-3])
+                    cl = Clause(node.name, [a.arg for a in node.args.args], body[0].value, path, fn[:-3],
+                                opaque=any(isinstance(d, ast.Name) and d.id == "opaque" for d in node.decorator_list))
                     helpers[node.name] = cl
             self.helpers[path] = helpers
             for q, c in S.REGISTRY.items():
@@ -142,7 +172,7 @@ class SpecDB:
         for d in p.defs:
             if collect_defs is not None and z3.is_quantifier(d) is False and not (z3.is_quantifier(d)):
                 collect_defs.append(d)
-            else:
+            elif not any(x.get_id() == d.get_id() for x in st.pc):
                 st.assume(d)
         if boolean:
             return p.as_bool(v)
@@ -410,6 +440,33 @@ class Pure:
         if isinstance(v, bool):
             return z3.BoolVal(v)
         raise EngineError(f"clause value is not boolean: {v}")
+
+    def opaque_call(self, h, args):
+        num_ix = [i for i, a in enumerate(args) if isinstance(a, Num) and a.kind in ("int", "real")]
+        keep = []
+        key = (self.file, h.name, tuple(_fingerprint(a, keep) if i not in num_ix else ("num", a.kind) for i, a in enumerate(args)))
+        ent = _OPAQUE.get(key)
+        if ent is None:
+            sorts = [z3.IntSort() if args[i].kind == "int" else z3.RealSort() for i in num_ix]
+            bvs = [z3.Const(fresh_name(f"{h.name}_{h.args[i]}"), so) for i, so in zip(num_ix, sorts)]
+            env = {}
+            for i, a in enumerate(args):
+                env[h.args[i]] = Num(bvs[num_ix.index(i)], a.kind) if i in num_ix else a
+            sub = Pure(self.db, self.I, None, self.file)      # no simplification under a particular path condition
+            body = sub.ev(h.expr, env)
+            if not isinstance(body, Num):
+                raise EngineError(f"opaque helper {h.name} must be numeric / Boolean")
+            rs = {"int": z3.IntSort(), "real": z3.RealSort(), "bool": z3.BoolSort()}[body.kind]
+            fn = z3.Function(fresh_name("SPEC_" + h.name), *(sorts + [rs]))
+            app = fn(*bvs)
+            ax = z3.ForAll(bvs, app == body.t, patterns=[app]) if bvs else (app == body.t)
+            ent = (fn, ax, body.kind, list(sub.defs), keep, [a for a in args])
+            _OPAQUE[key] = ent
+        fn, ax, kind, subdefs, _, _ = ent
+        for d in subdefs + [ax]:
+            if not any(x.get_id() == d.get_id() for x in self.defs):
+                self.defs.append(d)
+        return Num(fn(*[args[i].t for i in num_ix]), kind)
 
     def ev(self, node, env, env_now=None):
         if env_now is not None:
@@ -902,6 +959,8 @@ class Pure:
             if h is not None:
                 if len(h.args) != len(args):
                     raise EngineError(f"spec helper {name}: arity")
+                if h.opaque:
+                    return self.opaque_call(h, args)
                 return self.ev(h.expr, dict(zip(h.args, args)))
             raise EngineError(f"spec: unknown function {name} at {self.file}:{node.lineno}")
         fv = self.ev(f, env)
@@ -941,6 +1000,7 @@ def verify_function(db, modules, qual, bounded=False, sizes=None):
     fdef, modname, clsname = found
     import pyvc.core as _core
     _core.reset_fresh()
+    _OPAQUE.clear()
     L._ENT_CACHE.clear()
     res = FunctionResult(qual)
     import hashlib
